@@ -14,7 +14,10 @@ import shutil
 import subprocess
 import time
 
-from kani_run import CACHE, ENV, TAG, crate_dir
+from kani_run import CACHE, ENV, crate_dir
+from kani_run import TAG as _TAG
+# per-seed replay directories: cargo freshness is mtime based, two patched trees must never share a native target dir
+TAG = _TAG + os.environ.get("VERIF_REPLAY_TAG", "")
 
 KANI_HOME = os.path.expanduser("~/.kani/kani-0.68.0")
 REPLAY_TIMEOUT = int(os.environ.get("VERIF_REPLAY_TIMEOUT", "900"))
